@@ -372,17 +372,17 @@ func vProjDiff(a, b map[string]string) string {
 // ---- observation of one call -----------------------------------------------------------------------
 
 type vObs struct {
-	op                 OperationType
-	regs0, regs1       Registers
-	gas0, gas1         Gas
-	mem0               map[uint32][]byte
-	memChanged         [][2]uint64 // changed byte ranges [lo,hi)
-	projX0, projX1     map[string]string
-	projY0, projY1     map[string]string
-	exit               ExitReason
-	goPanic, goStack   string
-	machines0          string
-	machines1          string
+	op               OperationType
+	regs0, regs1     Registers
+	gas0, gas1       Gas
+	mem0             map[uint32][]byte
+	memChanged       [][2]uint64 // changed byte ranges [lo,hi)
+	projX0, projX1   map[string]string
+	projY0, projY1   map[string]string
+	exit             ExitReason
+	goPanic, goStack string
+	machines0        string
+	machines1        string
 }
 
 func vSnapMem(m *Memory) map[uint32][]byte {
@@ -531,7 +531,6 @@ func vAccountWithCode(code []byte) (types.ServiceAccount, types.OpaqueHash) {
 		StorageDict:    types.Storage{},
 	}, hh
 }
-
 
 // vBig: package PVM declares a function called `new` (the host call), which shadows the builtin.
 func vBig() *big.Int { return &big.Int{} }
